@@ -12,7 +12,7 @@ import (
 func init() {
 	register(&propInfo{
 		ID:          "C13",
-		Explanation: "Path analysis of every reflective call into user code in the library: (R13.1) each reflect.Value.Call/CallSlice lies in a function that, on every path to the call, has registered a deferred function literal which calls recover() directly, never re-panics, never type-asserts the recovered value unsafely, and — whenever the recovered value is non-nil, with no further condition — assigns a non-nil error to the function's error result, which is what the function returns; (R13.2) every caller of such a function tests that error and, when it is non-nil, emits an error reply and returns without reaching the success reply; (R13.3) user code is never invoked reflectively from any other place (no goroutine runs handler code outside that frame). (R13.5) nothing acquired before the user call (semaphore send/receive, Lock, WaitGroup.Add, atomic add) is released only after it in straight-line code of the recovering function.",
+		Explanation: "Path analysis of every reflective call into user code in the library: (R13.1) each reflect.Value.Call/CallSlice lies in a function that, on every path to the call, has registered a deferred function literal which calls recover() directly, never re-panics, never type-asserts the recovered value unsafely, and — whenever the recovered value is non-nil, with no further condition — assigns a non-nil error to the function's error result, which is what the function returns; (R13.2) every caller of such a function tests that error and, when it is non-nil, emits an error reply and returns without reaching the success reply; (R13.3) user code is never invoked reflectively from any other place (no goroutine runs handler code outside that frame). (R13.5) nothing acquired before the user call (semaphore send/receive, Lock, WaitGroup.Add, atomic add) is released only after it in straight-line code of the recovering function. R13.2 also requires the value results of the protected call to be indexed only where its error is known nil.",
 		NotDecided:  "Panics raised on goroutines the handler itself starts, panics in user-supplied param codecs / tracers / error marshalers (outside the property), and that other calls are unaffected in every schedule (follows from goroutine-per-call structure, not explored).",
 		Assumptions: []string{
 			"Go semantics: recover() only stops a panic when called directly by the deferred function",
@@ -326,6 +326,15 @@ func (c *Ctx) recoverFrame(fn *ssa.Function, site ssa.Instruction) (bool, string
 				}
 				if c.P.canonVar(st.Addr) == ssa.Value(errAlloc) && !isNilConst(st.Val) {
 					store = st
+				}
+				// a named function deferred directly with the address of the error result:
+				// defer recoverCall(name, &err) … *errOut = …
+				if prm, isPrm := st.Addr.(*ssa.Parameter); isPrm && prm.Parent() == cl && !isNilConst(st.Val) {
+					for i, q := range cl.Params {
+						if q == prm && i < len(df.Common().Args) && df.Common().Args[i] == ssa.Value(errAlloc) {
+							store = st
+						}
+					}
 				}
 			})
 			if store == nil {
